@@ -4,6 +4,7 @@ CONSTANTS Deltas = {0, 10, 21}
   MaxChunks = 2
   MaxBytes = 6
   Cap = 32
+  Ignores = {"none"}
   Variant = "sweep_by_create_time"
   Scripts1 = {9}
   Scripts2 = {9}
